@@ -113,9 +113,9 @@ theorem handleLine_known (opt : Opt) (h : Hook) (kw p' p m u g : Bytes) (rest : 
     (hku : opt.keepUid = true) (hkg : opt.keepGid = true) :
     handleLine opt (kw :: p' :: m :: u :: g :: rest) =
       match h.cb with
-      | .generic => addGeneric { name := p, mode := mode ||| h.mode, uid := uid, gid := gid, rdev := 0, extra := none } rest
-      | .device => addDevice { name := p, mode := mode ||| h.mode, uid := uid, gid := gid, rdev := 0, extra := none } rest
-      | .file => addFile { name := p, mode := mode ||| h.mode, uid := uid, gid := gid, rdev := 0, extra := none } rest := by
+      | .generic => addGeneric { name := p, mode := mode ||| h.mode, uid := uid, gid := gid, rdev := 0, extra := none, flags := h.flags } rest
+      | .device => addDevice { name := p, mode := mode ||| h.mode, uid := uid, gid := gid, rdev := 0, extra := none, flags := h.flags } rest
+      | .file => addFile { name := p, mode := mode ||| h.mode, uid := uid, gid := gid, rdev := 0, extra := none, flags := h.flags } rest := by
   have hr : (p = [] && !(false || h.allowRoot)) = false := by
     rcases hroot with h1 | h1
     · simp [h1]
